@@ -18,7 +18,9 @@ RULE = ("alphabet: makeRequest (reply / no-reply, fresh ids), re-use of an in-fl
         "trace is non-trivial when it reconnects, cancels, closes or sees an impossible length.  Oracle: reference "
         "model of request instances (exactly once; success = exact bytes of an unconsumed frame carrying the id, sent "
         "after the request was written on that connection; failure only by cancel or close; impossible length closes "
-        "the transport; no exception escapes into the reactor).")
+        "the transport; no exception escapes into the reactor).  The same alphabet (requests, frames for seen / unknown "
+        "ids, chunked delivery, impossible length, loss) is explored on KafkaBootstrapProtocol, the protocol of the "
+        "ephemeral bootstrap connection.")
 ASSUME = ["<= 3 requests, <= 3 broker frames per connection, depth-bounded histories",
           "VTransport implements the ITransport contract afkak relies on (bytes after loseConnection are dropped; "
           "connectionLost is a separate event)"]
@@ -32,4 +34,12 @@ def run(tier, seed, only=None):
         plans = [("chunked-2req", {"chunks": True, "max_reqs": 2, "max_frames": 3}, 10),
                  ("chunked-3req", {"chunks": True, "max_reqs": 3, "max_frames": 3}, 9),
                  ("whole-3req", {"chunks": False, "max_reqs": 3, "max_frames": 3}, 10)]
-    return _bc.run_bfs(PROPERTY, plans, seed, RULE, ASSUME)
+    rep = _bc.run_bfs(PROPERTY, plans, seed, RULE, ASSUME)
+    # the ephemeral bootstrap connection's own protocol class
+    from mc import explore
+    depth = 8 if tier == "quick" else 10
+    st = explore.bfs("harness.brokerclient:BootstrapProtocolHarness", {"max_reqs": 3, "max_frames": 4}, depth,
+                     seed=seed)
+    rep.add_stats("bootstrap-protocol", st)
+    rep.notes.append("bootstrap-protocol: BFS depth %d completed (%d distinct states)" % (st.max_len, st.nodes))
+    return rep
